@@ -465,3 +465,31 @@ def c06_7(R):
 def c06_8(R):
     n = check_getters(R, ("stream_tx_segments::", "recovery::"))
     R.floor("segment / recovery accessors", n, 10)
+
+
+@rule("C06.9", ["C06"], ["E2", "E4"], "a timeout recovery is bounded by the highest sequence number sent before the go-back-N rewind",
+      "On an RTO send_tx_queue tells recovery.on_rto_timeout(self.last_sent_seq_nr) - the recovery point up to which duplicate ACKs are ignored - and then rewinds last_sent_seq_nr to the "
+      "retransmitted segment so that normal sending resumes from there. The value handed over must be the one from BEFORE the rewind: no store of a segment's seq_nr() into last_sent_seq_nr "
+      "may reach the call. Otherwise the 'ignore duplicates' phase ends with the first retransmitted segment and the late duplicates of the original flight start a spurious fast retransmit.")
+def c06_9(R):
+    stq = R.body(STQ)
+    calls = [t for t in stq.calls() if call_matches(t, ("recovery::Recovery::on_rto_timeout",))]
+    R.floor("recovery.on_rto_timeout calls in send_tx_queue", len(calls), 2)
+    rewinds = []
+    for s in stq.stmts():
+        if written_field(stq, s) == "VirtualSocket.last_sent_seq_nr" and s.rv.kind == "use":
+            v = trace(stq, s.rv.ops[0])
+            if v.kind == "call" and call_matches(v.root[1], ("SegmentForSending::seq_nr",)):
+                rewinds.append(s)
+    R.floor("go-back-N rewinds (last_sent_seq_nr = seg.seq_nr()) in send_tx_queue", len(rewinds), 1)
+    for t in calls:
+        a = trace(stq, t.args[1])
+        if a.last_field != "VirtualSocket.last_sent_seq_nr":
+            R.fail([STQ, "on_rto_timeout-arg", a.describe()], "recovery.on_rto_timeout is no longer given self.last_sent_seq_nr (the highest sequence number sent)", where=t.where(), instance="recovery-point=highest-sent")
+            continue
+        before = [s for s in rewinds if point_reaches(stq, s, t)]
+        if before:
+            R.fail([STQ, "rewind-before(recovery.on_rto_timeout)"], "last_sent_seq_nr is rewound to the retransmitted segment before recovery.on_rto_timeout reads it: the recovery point is the "
+                   "retransmitted segment instead of the highest sequence number sent, so duplicate ACKs of the original flight are no longer ignored", where=before[0].where(), instance="recovery-point=highest-sent")
+        else:
+            R.ok("recovery-point=highest-sent", STQ, "on_rto_timeout(last_sent_seq_nr) at %s reads the value from before the rewind" % t.where())
